@@ -46,6 +46,27 @@ impl SimDir {
         std::fs::write(&p, bytes).expect("simdir: write");
         self.syscalls += 3;
     }
+    /// like `create`, but the directory entry is a symbolic link to a regular file kept outside the directory
+    /// (a legal way to lay a directory out; whoever asks the entry for its type without following links sees
+    /// "symlink", not "file")
+    pub fn create_link(&mut self, rel: &str, bytes: &[u8]) {
+        let store = self.store();
+        std::fs::create_dir_all(&store).expect("simdir: mkdir store");
+        let target = store.join(format!("f{}", self.syscalls));
+        std::fs::write(&target, bytes).expect("simdir: write store");
+        let p = self.root.join(rel);
+        if let Some(parent) = p.parent() {
+            std::fs::create_dir_all(parent).expect("simdir: mkdir");
+        }
+        let _ = std::fs::remove_file(&p);
+        std::os::unix::fs::symlink(&target, &p).expect("simdir: symlink");
+        self.syscalls += 5;
+    }
+    fn store(&self) -> PathBuf {
+        let mut name = self.root.file_name().map(|n| n.to_os_string()).unwrap_or_default();
+        name.push("-store");
+        self.root.with_file_name(name)
+    }
     /// overwrite in place (keeps the position in the listing)
     pub fn overwrite(&mut self, rel: &str, bytes: &[u8]) {
         std::fs::write(self.root.join(rel), bytes).expect("simdir: overwrite");
@@ -86,6 +107,7 @@ impl SimDir {
 
 impl Drop for SimDir {
     fn drop(&mut self) {
+        let _ = std::fs::remove_dir_all(self.store());
         let _ = std::fs::remove_dir_all(&self.root);
     }
 }
